@@ -86,7 +86,7 @@ CHECKS['C01'] = dict(
          'Liveness monitor so that a divergence is attributed by the specification to an analysis defect already listed as a '
          'known finding, or reported.',
     note=_MP_NOTE + ' Language covered: assignments (plain, augmented, tuple), expression statements, del, if/else, while, for '
-         'over tracer lists and range, break/continue/return, try/except(as)/finally with explicit raise, with, nested defs with '
+         'over tracer lists (also lists of pairs with a tuple target) and range, break/continue/return, try/except(as)/finally with explicit raise, with, nested defs with '
          'closures/nonlocal, default values and decorators, calls of local and of module-level functions (recursive conversion or '
          'unconverted callee), lambdas (called in place / stored), comprehensions, and/or/not, conditional expressions, loop '
          'directives, attribute state, list state (also under the LISTS feature), the integer profile on all inputs. Not '
